@@ -470,6 +470,8 @@ def compute_summaries(repo, cg, modules, rounds=6):
                 env = envs.get(c, {})
                 for j, p in enumerate(gp[off:]):
                     a = c.args[j] if j < len(c.args) else next((k.value for k in c.keywords if k.arg == p), None)
+                    if g.fq == f.fq and isinstance(a, ast.Name) and a.id == p and not ga._rebinds(p):
+                        continue         # the helper hands its own parameter on to itself: no new constraint (the outer call sites decide)
                     v = ga.fr(a, env) if a is not None else FRESH
                     res[p] = v if p not in res else meet(res[p], v)
             res = {p: v for p, v in res.items() if v == FRESH}
